@@ -179,6 +179,26 @@ func (s *c13Stub) SwitchToConsensus(state sm.State, skipWAL bool) {
 	s.run.onHandover(state, skipWAL)
 }
 
+// ---------------------------------------------------------------- observing logger
+// poolRoutine logs "Consensus ticker" in the switchToConsensusTicker case immediately before it
+// evaluates pool.IsCaughtUp(): the reactor's own logger is the one place from which the moment
+// of that decision can be observed without touching product code.
+type c13Logger struct {
+	log.Logger
+	run *c13Run
+}
+
+func (l *c13Logger) Debug(msg string, keyvals ...interface{}) {
+	if msg == "Consensus ticker" {
+		l.run.onTick()
+	}
+	l.Logger.Debug(msg, keyvals...)
+}
+
+func (l *c13Logger) With(keyvals ...interface{}) log.Logger {
+	return &c13Logger{Logger: l.Logger.With(keyvals...), run: l.run}
+}
+
 // ---------------------------------------------------------------- observing DB
 type c13DB struct {
 	dbm.DB
@@ -389,6 +409,19 @@ func c13Short(s string) string {
 	return s
 }
 
+// Called from poolRoutine right before its IsCaughtUp().  Under the trace lock (no
+// environment action can run) the same IsCaughtUp is evaluated and the pool projected: if it
+// holds, this pool -- or the pool after one of the few events that may still be logged before
+// the Handover event -- is the state the reactor decides on.  Logged only when it holds.
+func (r *c13Run) onTick() {
+	r.tr.Lock()
+	defer r.tr.Unlock()
+	if r.isHanded() || !r.bcR.pool.IsCaughtUp() {
+		return
+	}
+	r.log(map[string]interface{}{"ev": "Tick", "cu": true, "pool": r.pool()})
+}
+
 // the real hand-over: consensus.Reactor.SwitchToConsensus = reconstructLastCommit(state) +
 // updateToState(state) + conS.Start(); a panic is an observation
 func (r *c13Run) onHandover(state sm.State, skipWAL bool) {
@@ -473,7 +506,7 @@ func (r *c13Run) setup() {
 		logger = log.TestingLogger()
 	}
 	r.bcR = NewBlockchainReactor(state.Copy(), r.blockExec, r.bstore, true)
-	r.bcR.SetLogger(logger.With("module", "blockchain"))
+	r.bcR.SetLogger(&c13Logger{Logger: logger.With("module", "blockchain"), run: r})
 
 	// consensus as node.go builds it at boot: created from the boot state, waiting for the sync
 	r.conS = consensus.NewState(r.ccfg, state.Copy(), r.blockExec, r.bstore, mock.Mempool{}, sm.EmptyEvidencePool{})
